@@ -45,6 +45,8 @@ var plans = map[string]*plan{
 		Rule: "a case is one seeded schedule of the CLI's checkFile (N checker goroutines, semaphore, barrier) or of K parallel analyzer passes, in a -race build whose context switches are invisible to the race detector; distinct = distinct hash of the hand-over sequence (from,to,site) plus workload; non-trivial = at least one switch that suspends a started, unfinished checker task in favour of another checker task"},
 	"C05": {Race: false, Quick: 420, Thorough: 6000, Procs: 16, XProc: 12, Level: "exploration",
 		Rule: "3 of 4 cases: every selected checker applied in a seeded order (name, reverse, shuffle) to the same tree of one corpus package, with a fingerprint of syntax trees, types.Info, shared context, checker registry and astcast sentinels after every Check, and diagnostics (with fixes) compared with the run-alone reference - the first 2 rounds sweep all registered checkers over all corpus packages; 1 of 4 cases: the real CLI under a non-serial seeded schedule with fingerprints taken at context switches; distinct = distinct hash of (flags, visits, order | hand-over sequence); non-trivial = >= 2 checkers on one tree with >= 1 diagnostic, or >= 1 interleaving switch with >= 1 switch-point fingerprint"},
+	"C13": {Race: false, Quick: 960, Thorough: 12000, Procs: 16, XProc: 16, Level: "exploration",
+		Rule: "a case is one example file of one corpus package under (a) a seeded permutation of the positions of its plain functions inside f.Decls with no re-parse, or (b) a seeded source transformation (plain-function chunks permuted, blank lines / padding declarations inserted, unrelated functions appended) re-parsed and re-type-checked in memory; oracles: diagnostics of every selected non-exempt checker equal the untransformed run (line-shift normalised), and the package's own checker still satisfies the maintainers' /*! */ expectations, which travel with their chunk; distinct = distinct (package, file, permutation, paddings, selection); non-trivial = at least one function moved or padding inserted, and at least one diagnostic to preserve"},
 	"C18": {Race: false, Quick: 1600, Thorough: 60000, Procs: 16, XProc: 32, Level: "fault_enumeration",
 		Rule: "a case is one rule-file scenario on the simulated disk: 1-4 files, each valid / unreadable (EIO, EISDIR, EACCES, vanished after Glob) / torn at a group boundary / torn inside a group / empty / DSL violation / unloadable import, x patterns (paths and globs, spacing, order, no-match) x failOn (subsets, empty entries, unknown values) x legacy failOnError x enable/disable lists over names, tags, #experimental, unknown entries, x 1-2 constructions; even run indices are fault-free, odd ones fault-injecting; distinct = distinct scenario text; non-trivial = a fault fired, an init error is demanded, or a group filter is in play"},
 	"C19": {Race: false, Quick: 400, Thorough: 20000, Procs: 16, XProc: 16, Level: "fault_enumeration",
